@@ -230,6 +230,28 @@ def _analyse():
     return results
 
 
+def COVERS_STATIC():
+    """the memoised methods (and the classes' cache-clearing writers) the frame analysis extracts from the current source"""
+    import importlib
+
+    out = []
+    for modname, clsnames in FILES.items():
+        tree, _ = _module_tree(modname)
+        mod = importlib.import_module(modname)
+        for cname in clsnames:
+            cls = getattr(mod, cname, None)
+            if cls is None and hasattr(mod, "make_" + cname):  # classes built by a factory function
+                cls = getattr(mod, "make_" + cname)()
+            if cls is None:
+                continue
+            for mname, fn in _methods(_classes(tree)[cname]).items():
+                if _cached_info(fn) or mname in CONSTRUCTION:
+                    f = getattr(cls, mname, None)
+                    if f is not None:
+                        out.append(getattr(f, "__wrapped__", f))
+    return out
+
+
 @static("C26", "frame-analysis")
 def s_frames(tier):
     return _analyse()
